@@ -72,7 +72,7 @@ def generate(seed, tier):
     prof = profile(
         win=t['win'], max_cells=t['max_cells'], min_cells=4,
         max_books=3, max_sheets=2, p_arr=sw.pick([0, .08]),
-        p_refop=sw.pick([0, 0, .1]),
+        p_refop=sw.pick([0, 0, .1]), p_alias=.3,
         p_name=sw.pick([.1, .3]), p_cross=sw.pick([.5, .7]), p_text=0,
         p_bool=0, p_err=0, p_frac=.1, depth=sw.pick([1, 2]),
         w_if=sw.pick([0, 2]), w_iferror=sw.pick([1, 2.5]),
@@ -185,9 +185,17 @@ def generate(seed, tier):
             points.append({'kind': 'func', 'cell': i, 'id': k,
                            'name': fr.pick(UNKNOWN)})
         else:
-            pos = fr.randrange(4)
+            pos = fr.randrange(5)
             lit = ['rl', k]
-            if pos == 0:
+            if pos == 4:
+                # what Excel leaves of a multi-area reference when one of
+                # its areas is deleted: (A1:A2,#REF!) - switched off, the
+                # literal is the area's first cell again
+                area = ['r', c['at'][0], c['at'][1], AREA_ROW, 0,
+                        AREA_ROW + 1, 0]    # two cells nobody populates
+                c['f'] = ['op', '+', c['f'], ['f', 'SUM', [
+                    'u', area, ['rl', k, 'area']]]]
+            elif pos == 0:
                 c['f'] = ['op', '+', c['f'], lit]
             elif pos == 1:
                 c['f'] = ['f', 'IFERROR', ['op', '+', c['f'], lit], ['n', 7]]
@@ -197,6 +205,7 @@ def generate(seed, tier):
             else:
                 c['f'] = ['op', '+', ['f', 'ISERROR', lit], c['f']]
             points.append({'kind': 'reflit', 'cell': i, 'id': k,
+                           'at': list(c['at']), 'area': pos == 4,
                            'qual': fr.pick(REF_QUALIFIERS)})
     n = len(points)
     er = Rng(seed, 'subsets')
@@ -236,6 +245,9 @@ def generate(seed, tier):
     if not sched['extlinks'] and not transient and not spill and \
             er.chance(.25):
         sched['reimport'] = True
+    # (finishing in two steps - finish(complete=False), later finish() - is
+    # not generated: ranges into workbooks that are completed later are
+    # assembled from blanks by the first step and stay that way)
     return {'prop': ID, 'seed': seed, 'tier': tier, 'world': world,
             'points': points, 'subsets': subsets, 'exhaustive': exhaustive,
             'transient': transient, 'schedule': sched}
@@ -243,6 +255,8 @@ def generate(seed, tier):
 
 
 # -------------------------------------------------------------- instantiation
+AREA_ROW = 40     # far below every sheet window
+
 # what is left when Excel turns a reference into #REF!: the sheet part stays
 # (cells deleted: Sheet!#REF!) or the cell part stays (sheet deleted: #REF!A1);
 # a literal typed into a dictionary may be in lower case
@@ -262,10 +276,16 @@ def instantiate(world, points, on):
     def fix(e):
         if e[0] == 'rl':
             k, p = by_id[e[1]]
+            if len(e) > 2:      # an area of a union
+                return ['e', '#REF!', 'area'] if k in on else \
+                    ['r', p['at'][0], p['at'][1], AREA_ROW + 2, 0,
+                     AREA_ROW + 2, 0]
             if k not in on:
                 return ['n', 0]
             return ['e', '#REF!', p['qual']] if p.get('qual') else \
                 ['e', '#REF!']
+        if e[0] in ('u', 'x'):
+            return [e[0]] + [fix(x) for x in e[1:]]
         if e[0] in ('op', 'f'):
             e = e[:2] + [fix(x) for x in e[2:]]
             if e[0] == 'f' and e[1].startswith('@FF'):
@@ -297,6 +317,18 @@ def instantiate(world, points, on):
     for k, nm in enumerate(w['names']):
         if (nm['t'][1], nm['t'][2]) in gone and k not in info['bad_names']:
             info['bad_names'].append(k)
+    # names left out of the file ...
+    info['skip_names'] = list(info['bad_names'])
+    # ... and names that are (chains of) aliases of such a name: defined, but
+    # as unresolvable as what they stand for
+    changed = True
+    while changed:
+        changed = False
+        for k, nm in enumerate(w['names']):
+            if nm.get('alias') in info['bad_names'] and \
+                    k not in info['bad_names']:
+                info['bad_names'].append(k)
+                changed = True
     return w, info
 
 
@@ -345,6 +377,9 @@ def leaves(e, conds=(), icpt=False, sw=False):
     if k in ('u', 'x'):   # union: every area; intersection: the common cells
         for x in refs_of(e):
             yield x, conds, icpt, sw
+        for x in e[1:]:
+            if x[0] == 'e':     # a deleted area: (A1:A2,#REF!)
+                yield x, conds, icpt, sw
         return
     if k in ('r', 'nm', 'e'):
         yield e, conds, icpt, sw
@@ -379,7 +414,8 @@ def run_one(world, placement, sched, info, transient, log, stats):
         books = xlsx_books(world, placement,
                            skip_sheets=[tuple(x) for x in
                                         info['absent_sheets']],
-                           skip_names=info['bad_names'],
+                           skip_names=info.get('skip_names',
+                                                info['bad_names']),
                            broken_names=info.get('broken_names', ()),
                            extlinks=sched.get('extlinks', False))
         for name, data in books.items():
@@ -539,6 +575,10 @@ def judge(w, obs, twin, info, transient, fail, stats, what, on, pl):
             hit = None
             if node[0] == 'e' and node[1] == '#REF!':
                 hit = {'e:#REF!'}
+                if len(node) > 2 and node[2] == 'area':
+                    # (as an operand of a reference operator the literal
+                    # makes the whole reference invalid: any error value)
+                    hit = {'e:#REF!', 'e:#VALUE!', 'e:#NULL!'}
             elif node[0] == 'nm':
                 if node[1] in info['bad_names']:
                     hit = {'e:#REF!', 'e:#NAME?'}
